@@ -3,6 +3,7 @@ package checks
 import (
 	"context"
 	"fmt"
+	"git.defalsify.org/vise.git/state"
 	"os"
 	"sort"
 	"strings"
@@ -445,6 +446,37 @@ func runC08(c *vk.Ctx) {
 		if err := a.CheckCanaries(); err != nil {
 			c.Violate("shared-data-modified", err.Error(), key, map[string]interface{}{"app": a.Describe()})
 		}
+	}
+	// (iii) the level limit lowered by the application
+	c08LoweredLevelLimit(c, &idx)
+}
+
+// c08LoweredLevelLimit: the application bounds the session depth by lowering the exported state.MaxLevel (as the
+// library's own state tests do); clients that keep descending must be refused with an error at the limit in force,
+// never crash the engine, and the stored session must keep its invariants.
+func c08LoweredLevelLimit(c *vk.Ctx, idx *int) {
+	n := c.N(60, 600)
+	for i := 0; i < n; i++ {
+		mine := c.Mine(*idx)
+		*idx++
+		limit := []int{3, 4, 6, 9, 17}[i%5]
+		key := fmt.Sprintf("maxlevel/%d/%d", limit, i)
+		if !mine || !c.Want(key) {
+			continue
+		}
+		r := c.RNG(key)
+		a := app.Generate(r, c08Profile(r))
+		cfg := genConfig(r, a, "s")
+		cfg.First = a.Funcs["_first"] != nil
+		c.Begin(key)
+		func() {
+			old := state.MaxLevel
+			state.MaxLevel = limit
+			defer func() { state.MaxLevel = old }()
+			exploreC08(c, a, cfg, key, key, 4, 2000)
+			walkC08(c, r, a, cfg, key, key, c.N(200, 400))
+		}()
+		c.Count("explorations_with_a_lowered_level_limit", 1)
 	}
 }
 
